@@ -53,7 +53,7 @@ class CvxStub:
         sv.status = status
         prob.status = status
         vars_ = cp.variables()
-        if status != 'optimal':
+        if not status.startswith('optimal'):        # 'optimal_inaccurate' also comes with a solution (same contract)
             for v in vars_:
                 v._value = None
             for c in prob.constraints:
